@@ -6,6 +6,7 @@
 #include <ascon/xof.h>
 void cpp_hash(int a, const unsigned char *m, size_t n, unsigned char *out);
 void cpp_xof(int a, size_t declared, const unsigned char *m, size_t n, unsigned char *out, size_t outlen);
+void cpp_cxof(int a, size_t declared, const char *fn, const unsigned char *c, size_t cl, int form, const unsigned char *m, size_t n, unsigned char *out, size_t outlen);
 
 static int A, pat, tier;
 static const char *nm(const char *base) { static char b[4][32]; static int i; i = (i + 1) & 3; snprintf(b[i], 32, "%s%s", base, A ? "a" : ""); return b[i]; }
@@ -58,6 +59,12 @@ static void plain(void)
         if (A) { ascon_hasha_state_t h; ascon_hasha_init(&h); ascon_hasha_update(&h, mp, inlen); ascon_hasha_finalize(&h, o); ascon_hasha_free(&h); }
         else { ascon_hash_state_t h; ascon_hash_init(&h); ascon_hash_update(&h, mp, inlen); ascon_hash_finalize(&h, o); ascon_hash_free(&h); }
         cmp(nm("hash:incremental:hash"), o, e, 32, "inlen=%zu", inlen, 0, 0, 0);
+        {   /* the same through reinit on an object with a past: nothing, a few bytes, whole blocks, or a finished digest */
+            static const size_t pasts[6] = {0, 1, 8, 16, 24, 13}; size_t pb = pasts[inlen % 6]; int fin = (inlen % 7) == 3; uint8_t t[32]; memset(o, 0xAA, 32);
+            if (A) { ascon_hasha_state_t h; ascon_hasha_init(&h); ascon_hasha_update(&h, msg, pb); if (fin) ascon_hasha_finalize(&h, t); ascon_hasha_reinit(&h); ascon_hasha_update(&h, mp, inlen); ascon_hasha_finalize(&h, o); ascon_hasha_free(&h); }
+            else { ascon_hash_state_t h; ascon_hash_init(&h); ascon_hash_update(&h, msg, pb); if (fin) ascon_hash_finalize(&h, t); ascon_hash_reinit(&h); ascon_hash_update(&h, mp, inlen); ascon_hash_finalize(&h, o); ascon_hash_free(&h); }
+            cmp(nm("hash:reinit:hash"), o, e, 32, "inlen=%zu past=%zu finalised=%zu", inlen, pb, (size_t)fin, 0);
+        }
         memset(o, 0xAA, 32);
         ref_xof(A, msg, inlen, e, 32);
         if (A) ascon_xofa(o, mp, inlen); else ascon_xof(o, mp, inlen);
@@ -175,10 +182,15 @@ static void cxof(void)
                         x_init_custom(&s, np, HX_OPT(custom, cl), cl, dcl[di]); x_absorb(&s, HX_OPT(msg, inlen), inlen); x_squeeze(&s, out, ol); x_free(&s);
                         cmp(nm("xof:custom:xof"), out, e, ol, "namelen=%zu customlen=%zu declared=%zu inlen/outlen=%zu", rnl, cl, dcl[di], inlen * 1000 + ol);
                         hx_stat("nontrivial", 1);
-                        if (ol == 14 || ol == 40) {
+                        if (ol == 15 || ol == 28) {
                             /* the same through reinit_custom on an object with a past */
                             memset(out, 0xAA, ol); x_used(&s, (unsigned)(nl + cl + inlen + 1), msg); x_reinit_custom(&s, np, HX_OPT(custom, cl), cl, dcl[di]); x_absorb(&s, HX_OPT(msg, inlen), inlen); x_squeeze(&s, out, ol); x_free(&s);
                             cmp(nm("xof:reinit-custom:xof"), out, e, ol, "namelen=%zu customlen=%zu declared=%zu inlen/outlen=%zu", rnl, cl, dcl[di], inlen * 1000 + ol);
+                        }
+                        if (ol == 28 && (dcl[di] == 0 || dcl[di] == 32 || dcl[di] == 64)) {
+                            /* the C++ classes' named-function constructors, both forms */
+                            for (int form = 0; form < 2; form++) { memset(out, 0xAA, ol); cpp_cxof(A, dcl[di], np, custom, cl, form, msg, inlen, out, ol); hx_stat("evaluations", 1);
+                                cmp(nm(form ? "xof:cpp-custom-byte_array:xof" : "xof:cpp-custom:xof"), out, e, ol, "namelen=%zu customlen=%zu declared=%zu inlen/outlen=%zu", rnl, cl, dcl[di], inlen * 1000 + ol); }
                         }
                         hx_free(out);
                     }
